@@ -390,6 +390,19 @@ class Interp:
             base_ = strip_noncast(children(n)[0]) if children(n) else None
             if base_ is not None and base_['kind'] == 'CXXThisExpr':
                 return [(p, ('field', self.prefix + n['name'], n))]
+            if base_ is not None and base_['kind'] == 'ImplicitCastExpr' and base_.get('castKind') == 'LValueToRValue':
+                # p->m where p is itself a pointer-valued lvalue
+                out = []
+                for q, lv in self.lval(children(base_)[0], p):
+                    if lv[0] in ('field', 'deref'):
+                        out.append((q, ('field', lv[1] + '->' + n['name'], n)))
+                    elif lv[0] == 'local':
+                        val = q.locals.get(lv[1])
+                        nm = val.data if isinstance(val, Ref) and val.what == 'object' else lv[2].get('referencedDecl', {}).get('name', 'ptr')
+                        out.append((q, ('field', str(nm) + '->' + n['name'], n)))
+                    else:
+                        raise AnalysisBroken('unsupported pointer base %r at %s' % (lv[0], pos(n)))
+                return out
             if base_ is not None:
                 # member of a sub-object / of a referenced object: hierarchical field name
                 out = []
@@ -847,6 +860,15 @@ class Interp:
             if r is not None:
                 return r
             f = self.idx.func_by_id.get(did)
+            if f is not None and (f.body is not None or getattr(f, 'defn', None)) and o is not None and o['kind'] == 'DeclRefExpr' \
+                    and o.get('referencedDecl', {}).get('kind') == 'VarDecl' and o['referencedDecl'].get('id') not in p.locals:
+                # method of a namespace-scope object: its fields are named <object>.<field>
+                saved = self.prefix
+                self.prefix = o['referencedDecl'].get('name', 'global') + '.'
+                try:
+                    return self.inline(f, args, p, n, arg_prefix=saved)
+                finally:
+                    self.prefix = saved
             if f is not None and (f.body is not None or getattr(f, 'defn', None)) and o is not None and o['kind'] == 'MemberExpr':
                 # method of a member sub-object: inline with a field-name prefix
                 out = []
